@@ -114,6 +114,9 @@ AddUnique(d, names, origin, pre) ==
 
 AddedOf(names, origin, pre) == {[origin |-> origin, cid |-> pre \o NameStr(nm), base |-> nm.b] : nm \in names}
 
+\* position of the i-th collected exception among those of its own unit (markers are per unit)
+UIdx(rs, i) == Cardinality({j \in 1..i : rs[j].unit = rs[i].unit})
+
 \* _report_traceback: per-label counter, skipping names already present
 RECURSIVE TbName(_, _)
 TbName(n, dom) == IF Name("traceback", n) \in dom THEN TbName(n + 1, dom) ELSE n
@@ -127,7 +130,7 @@ RECURSIVE Caught(_, _, _, _, _, _)
 Caught(ks, u, d, tn, ad, rs) ==
     IF ks = <<>> THEN <<d, tn, ad, rs>>
     ELSE LET k  == Head(ks)
-             i  == Len(rs) + 1
+             i  == Cardinality({j \in DOMAIN rs : rs[j].unit = u}) + 1     \* index among the exceptions of unit u
              n  == TbName(tn, DOMAIN d)
              nm == Name("traceback", n)
              cid == "tb:" \o u \o ":" \o ToString(i)
@@ -487,7 +490,7 @@ InDetails(x, d) == \E nm \in DOMAIN d : d[nm].origin = x.origin /\ d[nm].cid = x
 DetailsComplete == pc \in {"stop", "done"} /\ ~decor =>
     /\ \A x \in added : x.origin # "reason" => InDetails(x, details)
     /\ \A i \in DOMAIN raised : NeedsTb(raised[i].kind) /\ raised[i].kind # "xfail" =>
-          \E nm \in DOMAIN details : details[nm].origin = "traceback" /\ details[nm].cid = "tb:" \o raised[i].unit \o ":" \o ToString(i)
+          \E nm \in DOMAIN details : details[nm].origin = "traceback" /\ details[nm].cid = "tb:" \o raised[i].unit \o ":" \o ToString(UIdx(raised, i))
 HandlersCalled == pc \in {"stop", "done"} =>
     /\ hcalls = (IF onexc THEN Len(raised) ELSE 0)
     /\ outcomeHcalls = hcalls
